@@ -87,9 +87,12 @@ type runStat struct {
 	FiveTopics int    `json:"fiveTopicRows"`
 	Cancels    int    `json:"cancels"`   // syncLogDB cancelled on its way, then completed by the next start
 	WriteErrs  int    `json:"writeErrs"` // Writer.Write refused a block (sequence bounds)
+	Packs      int    `json:"packs"`     // blocks packed by a node itself (real doPack)
+	StaleWon   int    `json:"staleWon"`  // ... on a flow whose parent was no longer best, and the own block became best
+	StaleLost  int    `json:"staleLost"` // ... and the own block stayed a side block
 }
 
-var scenarios = []string{"reorg", "pingpong", "crash", "rawdb", "disk", "pack", "deep"}
+var scenarios = []string{"reorg", "pingpong", "crash", "rawdb", "disk", "pack", "deep", "produce"}
 
 func main() {
 	out := flag.String("out", ".", "output directory")
@@ -115,6 +118,8 @@ func main() {
 		switch s {
 		case "reorg", "pingpong", "deep":
 			evs, st = runTree(rec, s, rseed, *blocks, *queries, i)
+		case "produce":
+			evs, st = runProduce(rec, rseed, *blocks, *queries, i)
 		case "disk":
 			evs, st = runDisk(rec, rseed, *blocks, *queries, i)
 		case "pack":
